@@ -2,7 +2,7 @@
 from ..core import hx
 from . import _plan
 ID = "C15"
-PROPS = ["F1Verif.Props.C15", "F1Verif.Props.FactsC15"]
+PROPS = ["F1Verif.Props.C15", "F1Verif.Props.C15Run", "F1Verif.Props.FactsC15"]
 ALSO = ["F1Verif.Props.C14"]
 RULE = ("engine A: structured config files (1-6 stages of every mode, fields taken from the stage or omitted and inherited "
         "from the default section, stage and default parameters) rendered to YAML for the real ParseConfigFile with restart "
@@ -13,7 +13,7 @@ RULE = ("engine A: structured config files (1-6 stages of every mode, fields tak
         "Non-trivial: an accepted config with >= 2 stages and a stage-start, or one inheriting a field from default; "
         "distinct = distinct case lines.")
 ASSUMPTIONS = ["YAML decoding (yaml.v3) and os.Setenv/Unsetenv are external calls",
-               "sequential execution of stages and the environment hand-over are monitored on real runs (run.file ops), not proved"]
+               "sequential execution of stages and the environment hand-over are proved on a model of newStagesWorker/runStage (C15Run: the environment as an association list, stop/cancel instants arbitrary) and monitored on real runs (run op mode=file, cli op mode=file)"]
 
 
 def corpus():
@@ -93,6 +93,6 @@ def distribution(recs):
 
 
 MANIFEST = {
- "text": "For every decoded config and restart instant: if the file is accepted, the kept stages are — in file order — exactly those selected by the skip rule 'stage-start + cumulative duration > now' (all of them without stage-start), with their own or inherited durations and parameters (C15_kept, C15_all_kept_without_start, C15_defaults via stageLoop_spec, induction over the stage list), the total duration is the sum over all stages (C15_total) and the limits are mapped one-to-one with the two optional ones defaulting to 0 (C15_limits). Tie: structured configs at every boundary instant through the real ParseConfigFile; run-time half (sequential stages, environment present during a stage and gone after the run) monitored on real file-triggered runs.",
+ "text": "For every decoded config and restart instant: if the file is accepted, the kept stages are — in file order — exactly those selected by the skip rule 'stage-start + cumulative duration > now' (all of them without stage-start), with their own or inherited durations and parameters (C15_kept, C15_all_kept_without_start, C15_defaults via stageLoop_spec, induction over the stage list), the total duration is the sum over all stages (C15_total) and the limits are mapped one-to-one with the two optional ones defaulting to 0 (C15_limits). Tie: structured configs at every boundary instant through the real ParseConfigFile; run-time half (sequential stages, environment present during a stage and gone after the run) monitored on real file-triggered runs. Run time: on a model of newStagesWorker/runStage with the process environment as an association list, for every way the run ends (all stages done, cancelled inside a stage, iteration limit reached before a stage): stages trigger in file order one after another, while a stage triggers each of its parameters has its configured value and no other stage's parameter is set, and none of them is set when the trigger returns (C15_stages_env, C15_run_env, C15_stage_cleans_up; induction over the stage list).",
  "note": "YAML decoding and the process environment are external. The run-time statements (strictly sequential stages, env set while a stage triggers, unset afterwards) are monitored by run.file, not proved.",
  "technique": "Lean 4 theorems (induction over the stage list against a scan/filter specification) + differential check at boundary instants"}
